@@ -8,6 +8,7 @@ import OrsoVerif.Lemmas.DisplayMd
 import OrsoVerif.Lemmas.DisplayShown
 import OrsoVerif.Lemmas.DisplayFmt
 import OrsoVerif.Lemmas.DisplayTok
+import OrsoVerif.Lemmas.DisplayTd
 /-!
 # C18 — Rendering a DataFrame never fails and shows the right rows
 
@@ -584,6 +585,137 @@ theorem interval_decomposition_exact (months secs : Int) :
   simp only [splitInterval, src_hour_divisor, src_minute_divisor, src_month_divisor, spec_hourDiv, spec_minuteDiv,
     spec_monthDiv]
   omega
+
+/-! ## 5b. `numpy.timedelta64` → interval: every unit, every step, the whole 64-bit range of counts (C18-F08) -/
+
+section td64
+open DisplayTd Gen.DisplayTd
+
+/-- The unit tables of the source (`TIMEDELTA_MONTHS`, `TIMEDELTA_SECONDS`) are the reference tables:
+a year is 12 months; a week 604800 s, … ; a second is 10³ ms, …, 10¹⁸ as; a value without a unit counts
+seconds.  The two day constants of `days=int(seconds // 86400), nanoseconds=(seconds % 86400) * 1e9` agree. -/
+theorem src_td64_unit_tables :
+    monthsTable = specMonths ∧ secondsTable = specSeconds ∧ dayFloor = 86400 ∧ dayMod = 86400 := by decide
+
+/-- **Every timedelta64 is mapped, whatever its unit, step and count.**  For every unit name numpy has
+(`numpyUnits`), every step and every tick count (any integer — in particular the whole 64-bit range) the
+timedelta branch of `numpy_type_mapper` **as extracted** finds the unit in one of its tables (no
+`KeyError`), divides by nothing that is zero, and returns either the exact month count
+`raw · step · (12 | 1)` or a quotient `float(n) / d` with `d > 0` whose exact value `n / d` is the length
+in seconds `raw · step · len / per` (cross-multiplied: `n · per = raw · step · len · d`), the numerator being
+no larger than `raw · step · len`. -/
+theorem td64_every_unit_and_count_mapped (u : String) (hu : u ∈ numpyUnits) (step raw : Int) :
+    (∃ k, specMonths.lookup u = some k ∧ mapTd u step raw = .months (raw * step * k))
+    ∨ (∃ len per n d, specSeconds.lookup u = some (len, per) ∧ len.natAbs ≤ 604800
+        ∧ mapTd u step raw = .seconds n d ∧ 0 < d ∧ n * per = raw * step * len * d
+        ∧ n.natAbs ≤ (raw * step * len).natAbs) := by
+  simp only [numpyUnits, List.mem_cons, List.mem_nil_iff, or_false] at hu
+  have sec : ∀ (v : String) (len per : Int), monthsTable.lookup v = none → secondsTable.lookup v = some (len, per) →
+      specSeconds.lookup v = some (len, per) → len.natAbs ≤ 604800 → 0 < per →
+      ∃ len per n d, specSeconds.lookup v = some (len, per) ∧ len.natAbs ≤ 604800
+        ∧ mapTd v step raw = .seconds n d ∧ 0 < d ∧ n * per = raw * step * len * d
+        ∧ n.natAbs ≤ (raw * step * len).natAbs := by
+    intro v len per h1 h2 h3 h4 h5
+    obtain ⟨n, d, h⟩ := mapTd_seconds v len per h1 h2 h5 step raw
+    exact ⟨len, per, n, d, h3, h4, h⟩
+  rcases hu with rfl | rfl | rfl | rfl | rfl | rfl | rfl | rfl | rfl | rfl | rfl | rfl | rfl | rfl
+  · exact Or.inl ⟨12, by decide, by simp only [mapTd, show monthsTable.lookup "Y" = some 12 from by decide, months, ticks, id]⟩
+  · exact Or.inl ⟨1, by decide, by simp only [mapTd, show monthsTable.lookup "M" = some 1 from by decide, months, ticks, id]⟩
+  · exact Or.inr (sec "W" 604800 1 (by decide) (by decide) (by decide) (by decide) (by decide))
+  · exact Or.inr (sec "D" 86400 1 (by decide) (by decide) (by decide) (by decide) (by decide))
+  · exact Or.inr (sec "h" 3600 1 (by decide) (by decide) (by decide) (by decide) (by decide))
+  · exact Or.inr (sec "m" 60 1 (by decide) (by decide) (by decide) (by decide) (by decide))
+  · exact Or.inr (sec "s" 1 1 (by decide) (by decide) (by decide) (by decide) (by decide))
+  · exact Or.inr (sec "ms" 1 (10 ^ 3) (by decide) (by decide) (by decide) (by decide) (by decide))
+  · exact Or.inr (sec "us" 1 (10 ^ 6) (by decide) (by decide) (by decide) (by decide) (by decide))
+  · exact Or.inr (sec "ns" 1 (10 ^ 9) (by decide) (by decide) (by decide) (by decide) (by decide))
+  · exact Or.inr (sec "ps" 1 (10 ^ 12) (by decide) (by decide) (by decide) (by decide) (by decide))
+  · exact Or.inr (sec "fs" 1 (10 ^ 15) (by decide) (by decide) (by decide) (by decide) (by decide))
+  · exact Or.inr (sec "as" 1 (10 ^ 18) (by decide) (by decide) (by decide) (by decide) (by decide))
+  · exact Or.inr (sec "generic" 1 1 (by decide) (by decide) (by decide) (by decide) (by decide))
+
+/-- **`float()` accepts the numerator** for every 64-bit count and every step numpy allows (a C `int`):
+`|n| < 2¹¹⁴`, far below the `2¹⁰²⁴` at which `float(int)` raises `OverflowError`; and the model has a cell
+for the value (`tdCell` is defined). -/
+theorem td64_float_conversion_in_range (u : String) (hu : u ∈ numpyUnits) (step raw : Int)
+    (hraw : -(2 ^ 63) ≤ raw ∧ raw < 2 ^ 63) (hstep : 1 ≤ step ∧ step < 2 ^ 31) (parts : List Str) (slen : Nat) :
+    (∀ n d, mapTd u step raw = .seconds n d → n.natAbs < 2 ^ 114 ∧ 0 < d)
+    ∧ (tdCell u step raw parts slen).isSome = true := by
+  rcases td64_every_unit_and_count_mapped u hu step raw with ⟨k, _, hm⟩ | ⟨len, per, n, d, _, hlen, hm, hd, _, hb⟩
+  · refine ⟨fun n d h => (by rw [hm] at h; cases h), ?_⟩
+    simp only [tdCell, hm, Option.isSome]
+  · refine ⟨fun n' d' h => ?_, ?_⟩
+    · rw [hm] at h; injection h with h1 h2; subst h1; subst h2
+      refine ⟨Nat.lt_of_le_of_lt hb (product_bound raw step len (by omega) (by omega) hlen), hd⟩
+    · simp only [tdCell, hm]; split <;> rfl
+
+/-- **The interval shown is the true length** — for every unit, step and count: when the quotient is a
+whole number of seconds `S = n / d`, then `S · per = raw · step · len` (the exact length), and the pieces
+the formatter prints (`days = S // 86400`, then hours / minutes / seconds of `S % 86400` with the divisors
+of the source) add up to it: `days·86400 + h·3600 + m·60 + s = S`, `0 ≤ h < 24`, `0 ≤ m, s < 60`.
+(The double arithmetic of the code is exact on this path for `|n| ≤ 2⁵³` — the cells `tdCell` computes
+itself; beyond that the rounding of `float(n) / d` enters, which the harness mirrors and compares.) -/
+theorem td64_interval_is_true_length (u : String) (hu : u ∈ numpyUnits) (step raw len per n d : Int)
+    (hl : specSeconds.lookup u = some (len, per)) (hm : mapTd u step raw = .seconds n d) (hdiv : n % d = 0) :
+    let S := n / d
+    let p := splitInterval srcArith 0 (wholeRest S)
+    S * per = raw * step * len
+      ∧ wholeDays S * 86400 + p.hours * 3600 + p.minutes * 60 + p.seconds = S
+      ∧ 0 ≤ p.hours ∧ p.hours < 24 ∧ 0 ≤ p.minutes ∧ p.minutes < 60 ∧ 0 ≤ p.seconds ∧ p.seconds < 60
+      ∧ p.years = 0 ∧ p.months = 0 := by
+  intro S p
+  refine ⟨?_, ?_⟩
+  · rcases td64_every_unit_and_count_mapped u hu step raw with ⟨k, _, hm'⟩ | ⟨len', per', n', d', hl', _, hm', hd, hx, _⟩
+    · rw [hm'] at hm; cases hm
+    · rw [hm'] at hm
+      obtain ⟨e1, e2⟩ := Mapped.seconds.inj hm
+      rw [hl] at hl'
+      obtain ⟨e3, e4⟩ := Prod.mk.inj (Option.some.inj hl')
+      rw [e1, e2, ← e3, ← e4] at hx
+      rw [e2] at hd
+      have hn : n = S * d := by
+        have := Int.emod_add_mul_ediv n d
+        rw [hdiv, Int.zero_add, Int.mul_comm] at this; exact this.symm
+      have hx' : S * d * per = raw * step * len * d := by rw [← hn]; exact hx
+      exact Int.eq_of_mul_eq_mul_right (Int.ne_of_gt hd) (by rw [← hx']; ac_rfl)
+  · have h1 : dayFloor = 86400 := src_td64_unit_tables.2.2.1
+    have h2 : dayMod = 86400 := src_td64_unit_tables.2.2.2
+    simp only [p, splitInterval, wholeDays, wholeRest, h1, h2, src_hour_divisor, src_minute_divisor, src_month_divisor,
+      spec_hourDiv, spec_minuteDiv, spec_monthDiv, Int.fdiv_eq_ediv_of_nonneg _ (show (0 : Int) ≤ 86400 by decide),
+      Int.fmod_eq_emod_of_nonneg _ (show (0 : Int) ≤ 86400 by decide)]
+    omega
+
+/-- **The repair changes no value that rendered before.**  Whenever numpy's own 64-bit conversion
+(`pinnedSeconds`, the code before C18-F08) succeeds, the repaired branch forms the double quotient from
+the very same numerator and denominator — so the text is the same. -/
+theorem td64_repair_keeps_rendered_values (u : String) (hu : u ∈ numpyUnits) (step raw n d : Int)
+    (h : pinnedSeconds u step raw = some (n, d)) : mapTd u step raw = .seconds n d := by
+  simp only [numpyUnits, List.mem_cons, List.mem_nil_iff, or_false] at hu
+  rcases hu with rfl | rfl | rfl | rfl | rfl | rfl | rfl | rfl | rfl | rfl | rfl | rfl | rfl | rfl
+  · simp [pinnedSeconds, specSeconds, List.lookup] at h
+  · simp [pinnedSeconds, specSeconds, List.lookup] at h
+  · exact pinned_agrees_aux "W" 604800 1 (by decide) (by decide) (by decide) (by decide) step raw n d h
+  · exact pinned_agrees_aux "D" 86400 1 (by decide) (by decide) (by decide) (by decide) step raw n d h
+  · exact pinned_agrees_aux "h" 3600 1 (by decide) (by decide) (by decide) (by decide) step raw n d h
+  · exact pinned_agrees_aux "m" 60 1 (by decide) (by decide) (by decide) (by decide) step raw n d h
+  · exact pinned_agrees_aux "s" 1 1 (by decide) (by decide) (by decide) (by decide) step raw n d h
+  · exact pinned_agrees_aux "ms" 1 (10 ^ 3) (by decide) (by decide) (by decide) (by decide) step raw n d h
+  · exact pinned_agrees_aux "us" 1 (10 ^ 6) (by decide) (by decide) (by decide) (by decide) step raw n d h
+  · exact pinned_agrees_aux "ns" 1 (10 ^ 9) (by decide) (by decide) (by decide) (by decide) step raw n d h
+  · exact pinned_agrees_aux "ps" 1 (10 ^ 12) (by decide) (by decide) (by decide) (by decide) step raw n d h
+  · exact pinned_agrees_aux "fs" 1 (10 ^ 15) (by decide) (by decide) (by decide) (by decide) step raw n d h
+  · exact pinned_agrees_aux "as" 1 (10 ^ 18) (by decide) (by decide) (by decide) (by decide) step raw n d h
+  · exact pinned_agrees_aux "generic" 1 1 (by decide) (by decide) (by decide) (by decide) step raw n d h
+
+/-- **The defect repaired by C18-F08**: numpy's 64-bit conversions fail on 2⁶² weeks, on every value in
+attoseconds and on 2⁶² years, where the repaired branch returns the exact quotient / month count. -/
+theorem pinned_td64_conversions_overflow :
+    pinnedSeconds "W" 1 (2 ^ 62) = none ∧ mapTd "W" 1 (2 ^ 62) = .seconds (2 ^ 62 * 604800) 1
+    ∧ (∀ step raw : Int, pinnedSeconds "as" step raw = none) ∧ mapTd "as" 1 1 = .seconds 1 (10 ^ 18)
+    ∧ pinnedMonths "Y" 1 (2 ^ 62) = none ∧ mapTd "Y" 1 (2 ^ 62) = .months (2 ^ 62 * 12) := by
+  refine ⟨by decide, by decide, fun _ _ => rfl, by decide, by decide, by decide⟩
+
+end td64
 
 /-! ## 6. Colour tokens (tie to the extracted `COLORS` table) -/
 
